@@ -50,6 +50,7 @@ def dispatch (line : String) : String :=
   | "s6d" :: args => C08.handleS6d args
   | "c09" :: args => C09.handle args
   | "c09w" :: args => C09.handleW args
+  | "c09L" :: _ => "skip"
   | "c10" :: args => C10.handle args
   | "c10d" :: args => C10.handleD args
   | "c06" :: args => C06.handle args
